@@ -58,6 +58,17 @@ def _case(draw, tier):
             nodes = [dict(n) for n in topo]
     else:
         nodes = [dict(n) for n in topo]
+    # a gate INSIDE the (outermost) nested graph, routing between two of its own function nodes
+    if depth >= 1 and not renamed and prob(draw, 0.3):
+        w = next((n for n in nodes if n["k"] == "graph"), None)
+        inner_funcs = [x["name"] for x in w["graph"]["nodes"] if x["k"] == "func"] if w else []
+        if len(inner_funcs) >= 2:
+            t, f = draw(st.permutations(inner_funcs))[:2]
+            inner_names = sorted({p for x in w["graph"]["nodes"] if x["k"] == "func" for p in x["params"]})
+            gp = list(dict.fromkeys(draw(st.lists(st.sampled_from(inner_names), max_size=1)))) if inner_names else []
+            w["graph"]["nodes"] = w["graph"]["nodes"] + [{"k": "ifelse", "name": "gin", "params": gp, "defaults": {}, "t": t, "f": f, "table": [True]}]
+            if gp and gp[0] not in w.get("flat_inputs", []) and gp[0] not in {o for x in w["graph"]["nodes"] for o in x.get("outs", [])}:
+                pass
     # thin wrapper: put the single wrapper inside another graph that has no edges of its own
     thin = depth >= 1 and prob(draw, 0.25)
     gates = []
@@ -135,16 +146,23 @@ def _deps(case, leaf_path, tree):
                         deps.append(("data", b, leaf_path[n["name"]], p))
                     continue
                 input_consumers.setdefault(p, []).append(leaf_path[n["name"]])
-    for g in case["nodes"]:
-        if g["k"] in ("ifelse", "route"):
-            ts = [g["t"], g["f"]] if g["k"] == "ifelse" else g["targets"]
-            for t in dict.fromkeys(ts):
-                deps.append(("control", g["name"], "__end__" if t == "END" else t, ""))
-            for p in g["params"]:
-                if p in prod:
-                    deps.append(("data", leaf_path[prod[p]["name"]], g["name"], p))
-                else:
-                    input_consumers.setdefault(p, []).append(g["name"])
+    def gates_of(nodes, prefix):
+        for g in nodes:
+            if g["k"] == "graph":
+                yield from gates_of(g["graph"]["nodes"], prefix + g["name"] + "/")
+            elif g["k"] in ("ifelse", "route"):
+                yield prefix, g
+
+    for prefix, g in gates_of(case["nodes"], ""):
+        gid = prefix + g["name"]
+        ts = [g["t"], g["f"]] if g["k"] == "ifelse" else g["targets"]
+        for t in dict.fromkeys(ts):
+            deps.append(("control", gid, "__end__" if t == "END" else prefix + t, ""))
+        for p in g["params"]:
+            if p in prod:
+                deps.append(("data", leaf_path[prod[p]["name"]], gid, p))
+            else:
+                input_consumers.setdefault(p, []).append(gid)
     return deps, input_consumers
 
 
@@ -533,6 +551,8 @@ def check_case(case, ev):
         labels.add("gates")
     if any(n.get("emit") for n in case["topo"]):
         labels.add("ordering_edge")
+    if "gin" in leaf_path:
+        labels.add("gate_inside_nested_graph")
     ev.case(case, bool(containers) and crossing and stats["states"] >= 2, sorted(labels))
 
 
